@@ -90,7 +90,8 @@ def rand_graph(rng, pcmci=False):
 
 
 def check(run, driver):
-    from causationentropy.graph import utils as U
+    from common import ModuleEntryPoints
+    U = ModuleEntryPoints("causationentropy.graph.utils", "causationentropy.graph")     # both public paths, in turn
 
     run.rule = (
         "random multigraphs (mixed-type labels incl. 10 vs '10', parallel edges, self-loops, missing attributes) x subsets of the 9 metadata "
